@@ -1,4 +1,6 @@
 import Tengo.Props.C09
 import Tengo.Props.C09Eq
+import Tengo.Props.C09Inv
 /-! C09: the frozen-store invariant, freeze theorems and source inventory (`C09`) and "the executable equality
-`equalsN` decides the relation `Eqv` of the freeze theorems" (`C09Eq`) — as one module for the checker. -/
+`equalsN` decides the relation `Eqv` of the freeze theorems" (`C09Eq`) and "the well-formedness hypotheses HdrOk / RefsOk are invariants of every operation, the equality theorems on built
+heaps" (`C09Inv`) — as one module for the checker. -/
